@@ -18,6 +18,7 @@ from py_gql.execution import (
     BlockingExecutor,
     Executor,
     Instrumentation,
+    MultiInstrumentation,
     default_resolver as _lib_default_resolver,
 )
 from py_gql.execution.runtime import (
@@ -32,7 +33,7 @@ from .kernel import Hang, Kernel, StepCap
 from .loop import SimLoop, sim_pause
 from .model import error_extensions, error_message
 from .pool import SimExecutor, SimFuture
-from .workload import ENUM_VALUES, is_list
+from .workload import ENUM_VALUES, gql_kwargs, is_list
 
 import warnings  # noqa: E402
 
@@ -119,11 +120,16 @@ class BoomCancelled(Boom, concurrent.futures.CancelledError):
     cancelled."""
 
 
+class BoomRuntime(Boom, RuntimeError):
+    """RuntimeError: what asyncio / concurrent.futures raise themselves (loop
+    closed, executor shut down) and library code is tempted to handle."""
+
+
 # unexpected exceptions come in the classes that library code tends to catch
 # for its own control flow
 BOOM_CLASSES = (Boom, BoomIndex, BoomKey, BoomValue, BoomType, BoomAttribute,
                 BoomLookup, BoomLocated, BoomEnumValue, BoomCoercion,
-                BoomValidation, BoomExecution, BoomCancelled)
+                BoomValidation, BoomExecution, BoomCancelled, BoomRuntime)
 
 
 class DeniedError(ResolverError):
@@ -235,7 +241,8 @@ def _finish(tname, fname, root, ctx, kwargs, tok):
         cls = BOOM_CLASSES[int(fault[4:] or 0) % len(BOOM_CLASSES)]
         ctx.count("F3_boom_" + cls.__name__)
         raise cls("/".join(str(p) for p in path))
-    v = ctx.world.field_value(root, tname, fname, kwargs, path, seq)
+    v = ctx.world.field_value(root, tname, fname,
+                              gql_kwargs(ctx.world.spec, kwargs), path, seq)
     ctx.log("re", path, ctx.req_id)
     return v
 
@@ -462,6 +469,15 @@ class Bundle:
             if has_tdefault:
                 self.schema.register_default_resolver(
                     tname, make_type_default(tname))
+        if spec.pyname_args:
+            from py_gql.schema import InterfaceType, ObjectType
+            for t in self.schema.types.values():
+                if isinstance(t, (ObjectType, InterfaceType)) and \
+                        not t.name.startswith("__"):
+                    for f in t.fields:
+                        for a in f.arguments:
+                            if a.name in spec.pyname_args:
+                                a.python_name = "py_" + a.name
         if spec.share_fields:
             # code-first style: ONE Field object listed by several object
             # types (fields without a resolver of their own, identical in
@@ -555,6 +571,23 @@ class Recorder(Instrumentation):
 
     def on_field_end(self, root, ctx, info):
         self._log("field_end", tuple(info.path))
+
+
+class SharedRecorder(Recorder):
+    """One instrumentation object handed to SEVERAL concurrent requests (a
+    logger, a metrics counter).  Stage hooks carry no request identity: they
+    are logged under ("SH", None) and judged by their totals; field hooks are
+    attributed through the context they receive."""
+
+    def __init__(self, kernel_ref):
+        Recorder.__init__(self, kernel_ref, "SH", None)
+
+    def on_field_start(self, root, ctx, info):
+        self._k().log.add("field_start", tuple(info.path),
+                          ("R0", ctx.req_id))
+
+    def on_field_end(self, root, ctx, info):
+        self._k().log.add("field_end", tuple(info.path), ("R0", ctx.req_id))
 
 
 class EndsOnlyRecorder(Instrumentation):
@@ -715,16 +748,28 @@ def run_config(config, bundle, request, world, stream, policy=None,
     if middlewares_factory is not None:
         kw["middlewares"] = middlewares_factory(mode)
     text = request["text"]
+    in_except = bool(request.get("in_except"))
+
+    def _in_handler(call):
+        """Run ``call`` from inside an ``except`` block of the caller."""
+        try:
+            raise LookupError("cache miss in the caller")
+        except LookupError:
+            return call()
+
     try:
         if config == "blocking-opt":
             # the documented blocking entry point (BlockingExecutor inside)
-            out.result = py_gql.graphql_blocking(bundle.schema, text, **kw)
+            call = lambda: py_gql.graphql_blocking(  # noqa: E731
+                bundle.schema, text, **kw)
+            out.result = _in_handler(call) if in_except else call()
             out.status = "ok"
         elif config == "blocking-gen":
-            out.result = process_graphql_query(
+            call = lambda: process_graphql_query(  # noqa: E731
                 bundle.schema, text, executor_cls=Executor,
                 runtime=BlockingRuntime(), **kw
             )
+            out.result = _in_handler(call) if in_except else call()
             out.status = "ok"
         elif mode == "asyncio":
             rt = AsyncIORuntime(
@@ -737,7 +782,7 @@ def run_config(config, bundle, request, world, stream, policy=None,
             use_graphql = (config == "asyncio-thread"
                            and stream.below(2, "entry-point") == 1)
 
-            async def main():
+            async def main_():
                 if use_graphql:
                     # the documented asyncio entry point; AsyncIORuntime()
                     # picks up the running (simulated) loop
@@ -746,6 +791,14 @@ def run_config(config, bundle, request, world, stream, policy=None,
                     bundle.schema, text, runtime=rt, **kw
                 )
                 return await r
+
+            async def main():
+                if not in_except:
+                    return await main_()
+                try:
+                    raise LookupError("cache miss in the caller")
+                except LookupError:
+                    return await main_()
 
             try:
                 out.result = loop.run_until_complete(main())
@@ -763,9 +816,10 @@ def run_config(config, bundle, request, world, stream, policy=None,
             SimFuture.executor = rt._inner
             waits0 = SimFuture.blocking_waits
             try:
-                fut = process_graphql_query(
+                call = lambda: process_graphql_query(  # noqa: E731
                     bundle.schema, text, runtime=rt, **kw
                 )
+                fut = _in_handler(call) if in_except else call()
                 kernel.run_until(fut.done)
                 kernel.drain()
                 if kernel.deadlock:
@@ -863,7 +917,7 @@ def _settle_and_close(loop, kernel):
 
 
 def run_overlapped(config, bundle, requests, worlds, stream, policy=None,
-                   max_steps=40000):
+                   max_steps=40000, shared_instrumentation=False):
     """Execute several requests *concurrently* against one schema object on
     one simulated loop / pool.  Each request has its own context (req_id) and
     its own recording instrumentation; all share the kernel and its log.
@@ -875,6 +929,10 @@ def run_overlapped(config, bundle, requests, worlds, stream, policy=None,
     outs = []
     kws = []
     loop = SimLoop(kernel) if mode == "asyncio" else None
+    shared = None
+    if shared_instrumentation:
+        # ONE stack object for all the requests
+        shared = MultiInstrumentation(SharedRecorder(lambda: kernel))
     for rid, (request, world) in enumerate(zip(requests, worlds)):
         world.make_default = make_default_attr
         out = Outcome(config)
@@ -887,7 +945,8 @@ def run_overlapped(config, bundle, requests, worlds, stream, policy=None,
             variables=request.get("variables"),
             operation_name=request.get("operation_name"),
             context=ctx,
-            instrumentation=Recorder(lambda: kernel, "R0", rid),
+            instrumentation=shared if shared is not None
+            else Recorder(lambda: kernel, "R0", rid),
         ))
         if request.get("root") is not None:
             kws[-1]["root"] = request["root"]
